@@ -426,7 +426,11 @@ def check(run, cfg):
     nproved = sum(1 for r in results if r['status'] == 'proved')
     print('%s: %d/%d obligations discharged, %d functions under contract, %.1fs' % (
         prop, nproved, len(obligations), len(reports), time.time() - run.t0))
+    seen_paths = set()
     for name, path, has_input in run.violations:
+        if path in seen_paths:
+            continue
+        seen_paths.add(path)
         print('VIOLATION property=%s replay=%s%s' % (prop, path, '' if has_input else ' no-failing-input-found'))
     for u in run.undecided[:10]:
         print('UNDECIDED %s: %s' % (u['obligation'], u['reason'][:120]))
